@@ -534,7 +534,14 @@ func init() {
 		nScripts := r.Pick(150, 6000)
 		local := &net.UDPAddr{IP: cliIP.AsSlice()}
 		// ---- IP, plain, basic and interleaved
-		for _, inter := range []bool{false, true} {
+		for mode := 0; mode < 4; mode++ {
+			// mode 2: a client in interleaved mode that is new for every call, so that its first request
+			// of the call is a basic-mode request (no previous exchange to refer to)
+			// mode 3: one client in interleaved mode asked to measure against two server addresses in
+			// turn: every first request of a call is a basic-mode request although a previous
+			// exchange (with the other address) is on record
+			inter, fresh, alt := mode > 0, mode == 2, mode == 3
+			calls := 0
 			p := newPeer(0)
 			c := &client.IPClient{Log: log, InterleavedMode: inter}
 			name := "ip-client"
@@ -544,11 +551,30 @@ func init() {
 				c05Spy = &c03Spy{}
 				c.Filter = c05Spy
 			}
+			if fresh {
+				name = "ip-client(interleaved,new client per call)"
+			}
 			remote := net.UDPAddrFromAddrPort(p.srv.Addr)
+			remote2 := remote
+			if alt {
+				name = "ip-client(interleaved,two servers in turn)"
+				if s2, err := peer.NewNTPServer(netip.AddrPortFrom(srvIP, 0), p.handle); err == nil {
+					defer s2.Close()
+					remote2 = net.UDPAddrFromAddrPort(s2.Addr)
+				}
+			}
 			c05Leg(r, name, p, c05HeaderMuts(rng, r.Thorough()), func(ctx context.Context) (time.Time, time.Duration, error) {
 				rm := *remote
-				return client.MeasureClockOffsetIP(ctx, log, c, local, &rm)
-			}, rng, nScripts)
+				calls++
+				if calls%2 == 0 {
+					rm = *remote2
+				}
+				cc := c
+				if fresh {
+					cc = &client.IPClient{Log: log, InterleavedMode: true, Filter: c05Spy}
+				}
+				return client.MeasureClockOffsetIP(ctx, log, cc, local, &rm)
+			}, rng, map[bool]int{false: nScripts, true: nScripts / 4}[fresh || alt])
 			p.srv.Close()
 		}
 		// ---- IP with NTS
